@@ -64,6 +64,7 @@ int main(void) {
 		else if (!strcmp(cmd, "calls")) say("ok %ld", w_total_calls());
 		else if (!strcmp(cmd, "inject")) { /* inject <pct>: EINTR on that share of sem_wait / sem_open / shm_open calls (each retried transparently by a correct library) */
 			sscanf(args, "%d", &a1); w_plan(W_SEM_WAIT, a1 ? WM_RANDOM : WM_OFF, a1, 1, WK_EINTR, (uint64_t)getpid()); w_plan(W_SEM_OPEN, a1 ? WM_RANDOM : WM_OFF, a1, 1, WK_EINTR, (uint64_t)getpid() * 3); w_plan(W_SHM_OPEN, a1 ? WM_RANDOM : WM_OFF, a1, 1, WK_EINTR, (uint64_t)getpid() * 7); say("ok"); }
+		else if (!strcmp(cmd, "nofd")) { sscanf(args, "%d", &a1); w_fd_exhausted = a1; say("ok"); }      /* nofd <0|1>: descriptor table full */
 		else if (!strcmp(cmd, "injected")) say("ok %ld", w_injected(W_SEM_WAIT) + w_injected(W_SEM_OPEN) + w_injected(W_SHM_OPEN));
 		else if (!strcmp(cmd, "log")) { int i; char b[4096]; size_t o = 0; sscanf(args, "%d", &a1); if (a1) { w_log_n = 0; w_log_on = 1; say("ok"); } else { w_log_on = 0; for (i = 0; i < w_log_n && i < 4096 && o + 24 < sizeof b; i++) o += (size_t)snprintf(b + o, sizeof b - o, "%s%s", i ? "," : "", w_names[w_log_ids[i]]); b[o] = 0; say("ok %s", b); } }
 		/* ---------------- semaphore ---------------- */
